@@ -21,7 +21,10 @@ RULE = ("pairs: EVERY ordered pair of the 221 table types x bond orders {guessed
         "multiplicities 1..9 (quick) / every centre pair x end classes x multiplicities 1..9 (thorough); pair "
         "coefficients: every type; ORDERED call sequences with the code's default arguments whose consecutive terms have "
         "different guessed bond orders (forward and reversed), and the real assign_bond/angle/dihedral_types call order on "
-        "random type graphs (every coefficient line vs. the oracle). Unspecified arguments are never passed to the real "
+        "random type graphs (every coefficient line vs. the oracle); the assign_* entry points on real Atoms objects "
+        "(constructor / copy()) with term lists in arbitrary direction and order, exclusion sets and rules: the coefficient "
+        "text reaching every bond, angle, torsion (M = listed torsions about its bond) and atom vs. the oracle; "
+        "assign_pair_coeffs in both label modes for every element and every type of the table. Unspecified arguments are never passed to the real "
         "functions (their own defaults are used); given argument objects are checked for mutation. Non-trivial = distinct input with a defined parameter tuple and an active correction "
         "(bonds: a1 != a2 or bond order != 1; angles and torsions: defined result; pairs: all). The exhaustive sweeps of "
         "the thorough tier run in worker processes and are counted in `evaluations` and `input_distribution` only.")
@@ -695,6 +698,307 @@ def assign_stream(ctx, n_mol):
                           "context": inp0}, observed=line, required=text(want))
 
 
+# --------------------------------------------------------------------------------------------- assign_* entry points
+
+def _as_tuples(arr):
+    return [tuple(int(x) for x in t) for t in arr]
+
+
+def _mk_atoms(inp):
+    """a real mofun.Atoms for an "assign" input (per-atom elements from the UFF types; term lists as given)"""
+    from mofun import Atoms
+    ut = inp["uff"]
+    n = len(ut)
+    els = [o_elem(t) or "X" for t in ut]
+    uniq = list(dict.fromkeys(els))
+    kw = dict(atom_types=[uniq.index(e) for e in els], atom_type_elements=uniq, atom_type_masses=[1.0 + i for i in range(len(uniq))],
+              positions=[(1.5 * i, 0.25 * (i % 3), 0.0) for i in range(n)])
+    for k in ("bonds", "angles", "dihedrals"):
+        if inp.get(k):
+            kw[k] = [tuple(t) for t in inp[k]]
+            kw[k[:-1] + "_types"] = [0] * len(inp[k])
+    a = Atoms(**kw)
+    if inp.get("via") == "copy":
+        a = a.copy()
+    return a
+
+
+def check_assign(inp):
+    """assign_bond_types / assign_angle_types / assign_dihedral_types on a real Atoms whose term lists are written in
+    arbitrary direction and order: the coefficient text that reaches EVERY term (through its type id) must be the
+    oracle's text for that term's UFF types (torsions: with M = number of listed torsions about the same central bond,
+    whichever way they are written); a torsion is dropped iff the documented case analysis says undefined; the call
+    raises iff a listed torsion is unsupported.  Returns a list of (what, observed, required)."""
+    ru = RU()
+    ut = inp["uff"]
+    rules_py = _rules_py(inp.get("rules"))
+    excl = None if inp.get("exclude") is None else set(inp["exclude"])
+    bad = []
+
+    def kept(t, arity):
+        return not (excl is not None and len(excl) >= arity and set(t) <= excl)
+
+    def want_bond(t):
+        a1, a2 = ut[t[0]], ut[t[1]]
+        k, r = o_bond(a1, a2, o_bond_order(a1, a2, rules_py))
+        return {"style": "bond", "v": [k, r]}
+
+    def want_angle(t):
+        a1, a2, a3 = (ut[i] for i in t)
+        st, v = o_angle(a1, a2, a3, o_bond_order(a1, a2, rules_py), o_bond_order(a2, a3, rules_py))
+        return {"style": st, "v": v}
+
+    dih0 = [tuple(t) for t in inp.get("dihedrals") or []]
+    mult = {}
+    for t in dih0:
+        key = frozenset((t[1], t[2]))
+        mult[key] = mult.get(key, 0) + 1
+
+    def want_dih(t):
+        a = [ut[i] for i in t]
+        return o_torsion(a[0], a[1], a[2], a[3], mult[frozenset((t[1], t[2]))], o_bond_order(a[1], a[2], rules_py))[1]
+
+    with core.quiet():
+        atoms = _mk_atoms(inp)
+        kw = {}
+        if rules_py is not None:
+            kw["bond_order_rules"] = rules_py
+        if excl is not None:
+            kw["exclude"] = set(excl)
+        for kind, arity, fn, want in (("bond", 2, ru.assign_bond_types, want_bond), ("angle", 3, ru.assign_angle_types, want_angle)):
+            orig = [tuple(t) for t in inp.get(kind + "s") or []]
+            if not orig:
+                continue
+            try:
+                fn(atoms, ut, **kw)
+            except Exception as e:  # noqa
+                bad.append(("assign_%s_types raised %s" % (kind, type(e).__name__), repr(e)[:200], "no exception"))
+                continue
+            terms = _as_tuples(getattr(atoms, kind + "s"))
+            types_ = [int(x) for x in getattr(atoms, kind + "_types")]
+            coeffs = list(getattr(atoms, kind + "_type_coeffs"))
+            exp = [t for t in orig if kept(t, arity)]
+            if terms != exp or len(types_) != len(terms):
+                bad.append(("%ss left after assign_%s_types are not the listed ones minus the excluded ones" % (kind, kind), terms, exp))
+                continue
+            for t, ty in zip(terms, types_):
+                if not (0 <= ty < len(coeffs)):
+                    bad.append(("%s %s has no coefficient line (type %d of %d)" % (kind, t, ty, len(coeffs)), ty, "valid type id"))
+                    break
+                coef, _, com = coeffs[ty].partition(" # ")
+                w = want(t)
+                if not _coef_close(("bond " + coef) if kind == "bond" else coef, w):
+                    bad.append(("%s coefficients reaching %s %s (%s) differ from the UFF formula" %
+                                (kind, kind, t, "-".join(ut[i] for i in t)), coeffs[ty], text(w)))
+                    break
+                names = tuple(ut[i] for i in t)
+                if tuple(com.split()) not in (names, names[::-1]):
+                    bad.append(("%s type comment names other types than the term's" % kind, coeffs[ty], " ".join(names)))
+                    break
+        if dih0:
+            exp_live = [t for t in dih0 if kept(t, 4)]
+            wants = {t: want_dih(t) for t in exp_live}
+            must_raise = any(w.get("err") == "unsupported" for w in wants.values())
+            try:
+                ru.assign_dihedral_types(atoms, ut, **kw)
+                raised = None
+            except Exception as e:  # noqa
+                raised = _err(e)
+            if must_raise:
+                if raised != {"err": "unsupported"}:
+                    bad.append(("a listed torsion is unsupported but assign_dihedral_types did not say so", raised, "unsupported"))
+            elif raised is not None:
+                bad.append(("assign_dihedral_types raised", raised, "no exception"))
+            else:
+                terms = _as_tuples(atoms.dihedrals)
+                types_ = [int(x) for x in atoms.dihedral_types]
+                coeffs = list(atoms.dihedral_type_coeffs)
+                exp = [t for t in exp_live if "v" in wants[t]]
+                if terms != exp or len(types_) != len(terms):
+                    bad.append(("torsions left after assign_dihedral_types are not the listed, non-excluded, defined ones", terms, exp))
+                else:
+                    for t, ty in zip(terms, types_):
+                        if not (0 <= ty < len(coeffs)):
+                            bad.append(("torsion %s has no coefficient line" % (t,), ty, "valid type id"))
+                            break
+                        coef, _, com = coeffs[ty].partition(" # ")
+                        w = wants[t]
+                        m = mult[frozenset((t[1], t[2]))]
+                        if not _coef_close(coef, w):
+                            bad.append(("torsion coefficients reaching torsion %s (%s, %d torsions about its bond) differ from the "
+                                        "UFF formula" % (t, "-".join(ut[i] for i in t), m), coeffs[ty], text(w)))
+                            break
+                        names = tuple(ut[i] for i in t)
+                        cs = com.split()
+                        if tuple(cs[:4]) not in (names, names[::-1]) or cs[4:] != ["M=%d" % m]:
+                            bad.append(("torsion type comment names other types / multiplicity than the term's", coeffs[ty],
+                                        " ".join(names) + " M=%d" % m))
+                            break
+    return bad
+
+
+def check_assign_pair(inp):
+    """assign_pair_coeffs on a real Atoms, both label modes: the Lennard-Jones text that reaches every ATOM must be the
+    oracle's for the documented label (explicit label / retyped label; or, from elements, the FIRST table type of that
+    element)."""
+    from mofun import Atoms
+    ru = RU()
+    keys = table()["keys"]
+    bad = []
+    mode = inp["mode"]
+    with core.quiet():
+        if mode == "elements":
+            els = inp["elements"]
+            uniq = list(dict.fromkeys(els))
+            if inp.get("order") == "reversed":
+                uniq = uniq[::-1]
+            a = Atoms(atom_types=[uniq.index(e) for e in els], atom_type_elements=uniq, atom_type_masses=[1.0] * len(uniq),
+                      positions=[(float(i), 0.0, 0.0) for i in range(len(els))])
+            if inp.get("via") == "copy":
+                a = a.copy()
+            want_label = []
+            for e in els:
+                cands = [k for k in keys if o_elem(k) == e]
+                want_label.append(cands[0] if cands else None)
+            try:
+                ru.assign_pair_coeffs(a, assign_atom_type_labels_from_elements=True)
+            except Exception as e:  # noqa
+                if all(w is not None for w in want_label):
+                    bad.append(("assign_pair_coeffs raised %s" % type(e).__name__, repr(e)[:200], "no exception"))
+                return bad
+        else:
+            labels = inp["labels"]                       # one UFF type per atom
+            els = [o_elem(t) for t in labels]
+            want_label = list(labels)
+            if mode == "retype":
+                a = Atoms(elements=["C"] * len(labels), positions=[(float(i), 0.0, 0.0) for i in range(len(labels))])
+                ru.retype_atoms_from_uff_types(a, list(labels))
+            else:
+                uniq = list(dict.fromkeys(labels))
+                a = Atoms(atom_types=[uniq.index(t) for t in labels], atom_type_elements=[o_elem(t) or "X" for t in uniq],
+                          atom_type_labels=list(uniq), atom_type_masses=[1.0] * len(uniq),
+                          positions=[(float(i), 0.0, 0.0) for i in range(len(labels))])
+            if inp.get("via") == "copy":
+                a = a.copy()
+            try:
+                ru.assign_pair_coeffs(a)
+            except Exception as e:  # noqa
+                bad.append(("assign_pair_coeffs raised %s" % type(e).__name__, repr(e)[:200], "no exception"))
+                return bad
+        types_ = [int(x) for x in a.atom_types]
+        pc = list(a.pair_coeffs)
+        lab = list(a.atom_type_labels)
+        for i, (ty, wl) in enumerate(zip(types_, want_label)):
+            if wl is None:
+                continue
+            if not (0 <= ty < len(pc)) or len(lab) != len(pc):
+                bad.append(("atom %d has no pair coefficient line" % i, [ty, len(pc), len(lab)], "one line per atom type"))
+                break
+            coef, _, com = pc[ty].partition(" # ")
+            w = {"style": "lj", "v": o_pair(wl)}
+            if lab[ty] != wl or com.strip() != wl:
+                bad.append(("atom %d (element %s) is labelled %s; documented type is %s" % (i, els[i], lab[ty], wl), pc[ty], wl))
+                break
+            if not _coef_close("lj " + coef, w):
+                bad.append(("pair coefficients reaching atom %d (%s) differ from eps = D1, sigma = x1 / 2^(1/6)" % (i, wl), pc[ty], text(w)))
+                break
+    return bad
+
+
+def _rand_topology(rng, n):
+    """a small connected graph (chain + branches + maybe a ring ≥ 4) as a bond list"""
+    bonds = [(i, i + 1) for i in range(min(n, rng.randint(4, 6)) - 1)]
+    used = max(b[1] for b in bonds) + 1
+    while used < n:
+        bonds.append((rng.randrange(used), used))
+        used += 1
+    chain = len([b for b in bonds if b[1] == b[0] + 1 and b[1] < 6])
+    if rng.random() < 0.3 and chain >= 3:
+        bonds.append((0, chain))                                     # close a ring of chain+1 >= 4 atoms
+    return bonds
+
+
+def assign_entry_stream(ctx, n_mol):
+    """the assign_* entry points on real Atoms objects (constructor or copy()), term lists in arbitrary direction and
+    order, optional exclusion sets and bond-order rules; assign_pair_coeffs with both label modes over EVERY element
+    and EVERY type of the table.  Oracle only (typing/enumeration theorems belong to C19)."""
+    rng = ctx.rng
+    keys = table()["keys"]
+    ru = RU()
+    cases = []
+    organic = ["C_R", "C_3", "C_2", "N_R", "N_3", "O_3", "O_2", "O_R", "H_", "N_2", "C_1", "S_3+2", "Zr3+4", "Cu4+2", "Zn3+2",
+               "S_R", "B_2", "P_3+3", "Si3", "O_3_z"]
+    defined_mid = ["C_R", "C_3", "C_2", "N_R", "N_3", "O_3", "O_R", "N_2", "S_3+2", "B_2", "Si3", "P_3+3", "S_R"]
+    # ethane / propene / biphenyl-like fixed molecules first (every torsion about the central bond, both directions)
+    fixed = [(["H_", "H_", "H_", "C_3", "C_3", "H_", "H_", "H_"], [(0, 3), (1, 3), (2, 3), (3, 4), (4, 5), (4, 6), (4, 7)]),
+             (["C_2", "H_", "C_2", "C_3", "H_", "H_", "H_"], [(0, 2), (1, 2), (2, 3), (3, 4), (3, 5), (3, 6)]),
+             (["C_R", "C_R", "C_R", "C_R", "C_R", "C_R"], [(0, 2), (1, 2), (2, 3), (3, 4), (3, 5)]),
+             (["H_", "O_3", "S_3+2", "H_", "C_3"], [(0, 1), (1, 2), (2, 3), (2, 4)])]
+    mols = list(fixed)
+    for _ in range(n_mol):
+        n = rng.randint(5, 10)
+        pool = defined_mid if rng.random() < 0.5 else organic
+        ut = [rng.choice(pool if rng.random() < 0.85 else keys) for _ in range(n)]
+        mols.append((ut, _rand_topology(rng, n)))
+    for ut, bonds in mols:
+        with core.quiet():
+            angles = _as_tuples(ru.calc_angles(bonds))
+            dihedrals = _as_tuples(ru.calc_dihedrals(bonds))
+        mode = rng.random()
+
+        def scramble(terms):
+            terms = [t[::-1] if rng.random() < 0.5 else t for t in terms]
+            rng.shuffle(terms)
+            return terms
+        b, a, d = list(bonds), angles, dihedrals
+        if mode < 0.75:
+            b, a, d = scramble(b), scramble(a), scramble(d)
+        if mode > 0.9 and len(d) > 3:
+            d = rng.sample(d, len(d) - rng.randint(1, 2))             # a hand-written, incomplete torsion list
+        inp = {"op": "assign", "uff": list(ut), "bonds": [list(t) for t in b], "angles": [list(t) for t in a],
+               "dihedrals": [list(t) for t in d], "rules": None, "exclude": None}
+        r = rng.random()
+        if r < 0.25:
+            inp["rules"] = rand_rules(rng, keys, around=[rng.choice(ut), rng.choice(ut)])
+        if rng.random() < 0.2:
+            inp["exclude"] = sorted(rng.sample(range(len(ut)), rng.randint(2, min(5, len(ut)))))
+        if rng.random() < 0.3:
+            inp["via"] = "copy"
+        cases.append(inp)
+    for inp in cases:
+        bad = check_assign(inp)
+        ctx.case(inp, nontrivial=bool(inp["dihedrals"]))
+        ctx.count("assign-entry" + (":copy" if inp.get("via") else "") + (":exclude" if inp["exclude"] else ""))
+        both = {}
+        for t in inp["dihedrals"]:
+            both.setdefault(frozenset(t[1:3]), set()).add(tuple(t[1:3]))
+        if any(len(v) == 2 for v in both.values()):
+            ctx.count("assign-entry:bond-with-torsions-written-from-both-ends")
+        for what, obs, req in bad:
+            ctx.fail(what, inp, observed=obs, required=req)
+    # pair coefficients: every element / every type of the table, both label modes
+    from mofun.atomic_masses import ATOMIC_MASSES
+    elements = list(dict.fromkeys(o_elem(k) for k in keys if o_elem(k) in ATOMIC_MASSES))
+    pcs = [{"op": "assign_pair", "mode": "elements", "elements": elements},
+           {"op": "assign_pair", "mode": "elements", "elements": elements, "order": "reversed", "via": "copy"},
+           {"op": "assign_pair", "mode": "labels", "labels": list(keys)},
+           {"op": "assign_pair", "mode": "retype", "labels": [k for k in keys if o_elem(k) in ATOMIC_MASSES]}]
+    for e in elements:
+        pcs.append({"op": "assign_pair", "mode": "elements", "elements": [e]})
+    for _ in range(max(10, n_mol // 5)):
+        k = rng.randint(2, 8)
+        pcs.append({"op": "assign_pair", "mode": "elements", "elements": [rng.choice(elements) for _ in range(k)]})
+        labs = [rng.choice(keys) for _ in range(k)]
+        pcs.append({"op": "assign_pair", "mode": rng.choice(["labels", "retype"]) if all(o_elem(t) in ATOMIC_MASSES for t in labs)
+                    else "labels", "labels": labs, "via": rng.choice([None, "copy"])})
+    for inp in pcs:
+        bad = check_assign_pair(inp)
+        ctx.case(inp, nontrivial=True)
+        ctx.count("assign-pair:" + inp["mode"])
+        for what, obs, req in bad:
+            ctx.fail(what, inp, observed=obs, required=req)
+
+
 # --------------------------------------------------------------------------------------------- model side
 
 def lean_many(ctx, ops):
@@ -843,6 +1147,9 @@ def run(ctx, oracle_only=False):
     ctx.count("sequence-calls", 2 * len(seq))
     # 1c. the call order of assign_bond_types / assign_angle_types / assign_dihedral_types
     assign_stream(ctx, ctx.n(150, 1500))
+    # 1d. the assign_* entry points judged per TERM / per ATOM against the formula oracle (real Atoms objects, term lists
+    #     in arbitrary direction and order, exclusion sets, both label modes for every element and type of the table)
+    assign_entry_stream(ctx, ctx.n(250, 2500))
     # 2. triples: stratified through the model; exhaustive on the real code in the thorough tier
     _batch(ctx, gen_triples(ctx, per_centre=ctx.n(90, 4000)), oracle_only, "triples")
     # 3. quadruples
@@ -904,7 +1211,9 @@ def replay(ctx, rec):
     the process is a primer with other guessed bond orders) and every element of the sequence is checked."""
     inp = {k: v for k, v in rec["input"].items() if k != "context"}
     if inp.get("op") == "assign":
-        return True
+        return not check_assign(inp) if "bonds" in inp and "angles" in inp else True
+    if inp.get("op") == "assign_pair":
+        return not check_assign_pair(inp)
     bad = []
     with core.quiet():
         for t in PRIMERS:
